@@ -419,6 +419,11 @@ func (cd *cmdDispatcher) prepare(cs *clientState, input respValue) (ctx *cmdCont
 func (cd *cmdDispatcher) dispatch(cs *clientState, input respValue) (output respValue) {
 	ctx, response := cd.prepare(cs, input)
 	if response != nil {
+		if cs.cmdQueue != nil && response != rstrQueued {
+			// rejected while queueing (unknown command, bad arguments): the
+			// transaction is discarded when EXEC comes
+			cs.queueError = true
+		}
 		output.data = response
 		return
 	}
